@@ -34,11 +34,10 @@ theorem tree_scan_cfg_ok : Gen.scanCfg.ok := by decide
     `scan_slot(next)`, FNV-1a `>> 11`).  Stops checking when the functions disagree or use neither. -/
 theorem tree_cursor_scheme_recognised : Gen.scanCursorIsRank = !Gen.scanCfg.slotCursor := by decide
 
-/-- The current tree uses the RANK cursor, so `scan_complete_partial` / `scan_complete_fails`
-    describe it.  When pending_repo_patches/C19_2_fix_slot_cursor.diff is applied this line stops
-    checking: restate it as `tree_cursor_is_slot : Gen.scanCfg.slotCursor = true`; from then on
-    `scan_complete` (full strength) describes the tree and finding C19-cursor-is-rank is closed. -/
-theorem tree_cursor_is_rank : Gen.scanCfg.slotCursor = false := by decide
+/-- The current tree uses the SLOT cursor (since 7022e03), so `scan_complete` (full strength, no exclusion)
+    describes it; the rank theorems and witnesses (`scan_complete_partial`, `scan_complete_fails`) describe
+    the tree before that commit (`rankCfg`).  Finding C19-cursor-is-rank is closed. -/
+theorem tree_cursor_is_slot : Gen.scanCfg.slotCursor = true := by decide
 
 /-- The constants of the tree with either cursor scheme (the witnesses below name the scheme they
     are about, so they keep checking when the tree changes scheme). -/
